@@ -30,4 +30,10 @@ PLAN = {
         "explanation": "contracts on Lifting.insert and the three get_active_identifier walks (loop invariant over "
                        "prefix sums), tiling lemmas for the flow balance",
     },
+    "C06": {
+        "sidecars": ["contracts.heap_c06"],
+        "level": "proof",
+        "trusted": COMMON_TRUSTED + ["model R for times (comparisons only)"],
+        "explanation": "contracts + loop invariants on heap.c (C front end) and on both Python schedulers",
+    },
 }
